@@ -1,12 +1,49 @@
 """C02 -- SD messages round-trip: every entry keeps exactly its own options."""
 import someip.header as H
 from contracts import spec_header as SH
+from contracts import spec_sd as SS
 from contracts import spec_sdcodec as SC
 
-FUNCTIONS = sorted(SC.CONTRACTS.keys())
+FUNCTIONS = sorted(SC.CONTRACTS.keys()) + ["someip.header.SOMEIPSDEntry.assign_option_index", "someip.header.SOMEIPSDHeader.assign_option_indexes (bounded)", "someip.sd.ServiceDiscoveryProtocol.send_sd"]
 
-ASSUMPTIONS = []
+ASSUMPTIONS = [
+    "options are arbitrary values compared by equality (opaque) where only sharing matters; each option class has its own codec obligations with symbolic fields",
+    "loops of the real code are verified by loop contracts: (init) the state that reaches the loop, (step) one arbitrary iteration refines the element contract, (exit) the result; composing them over the number of elements is the induction rule (trusted), not a solver step",
+    "b''.join over a sequence of symbolic length is an uninterpreted function of (sequence, element encoder)",
+    "_find's completeness (sharing is found whenever possible) is not claimed; only soundness, index safety and termination are proved, which is what the round trip needs",
+    "configuration strings: keys non-empty ASCII without '=', each string at most 255 bytes (as in the property's quantifier)",
+]
 
-HARNESSES = SC.ENTRY_REFINES + SC.ENTRY_LEMMAS + SC.OPTION_REFINES + SC.OPTION_LEMMAS + SC.CONFIG_OBLIGATIONS + SC.SD_OBLIGATIONS + SC.FIND_OBLIGATIONS + SC.GLUE_OBLIGATIONS
+BOUNDED = [
+    "ob_sd_assign_resolve_bounded: SOMEIPSDHeader.assign_option_indexes / resolve_options glue with 0..2 entries (run lengths, shared array and all field values symbolic)",
+    "ob_send_sd_refines: ServiceDiscoveryProtocol.send_sd with 0..1 entries per call",
+]
 
-EXPECT_COVERS = {"ob_entry_roundtrip": ["parsed"], "ob_entry_never_decodes_to_something_else": ["emitted"], "ob_entry_canonical": ["decoded"]}
+EXPLANATION = (
+    "element codecs (entry, every option class, configuration strings), the SD header split/flags, the parse/build loops (by loop contracts), "
+    "_find soundness/termination and the assign-then-resolve step are discharged for all values and all lengths; the comprehension glue of "
+    "assign_option_indexes/resolve_options and send_sd is checked with a bounded number of entries (stated in bounded_stand_ins), hence level other"
+)
+
+HARNESSES = (
+    SC.ENTRY_REFINES
+    + SC.ENTRY_LEMMAS
+    + SC.OPTION_REFINES
+    + SC.OPTION_LEMMAS
+    + SC.CONFIG_OBLIGATIONS
+    + SC.SD_OBLIGATIONS
+    + SC.FIND_OBLIGATIONS
+    + SC.GLUE_OBLIGATIONS
+    + SS.SEND_SD_OBLIGATIONS
+)
+
+EXPECT_COVERS = {
+    "ob_entry_roundtrip": ["parsed"],
+    "ob_entry_never_decodes_to_something_else": ["emitted"],
+    "ob_entry_canonical": ["decoded"],
+    "ob_option_roundtrip": ["parsed"],
+    "ob_config_item_roundtrip": ["encoded"],
+    "ob_find_sound": ["found", "not-found"],
+    "ob_assign_option_post": ["empty-run", "run"],
+    "ob_send_sd_refines": ["sent", "empty"],
+}
